@@ -4,6 +4,7 @@ import (
 	"context"
 	"encoding/json"
 	"fmt"
+	"regexp"
 	"sort"
 	"strings"
 
@@ -36,6 +37,7 @@ type LakeCase struct {
 	Progs   []LakeProg     `json:"progs"`
 	Some    []int          `json:"some"`   // ordinals (mod number of objects) of the objects that get vectors first
 	Delete  []int          `json:"delete"` // ordinals of the objects whose vectors are deleted at the end (empty = all)
+	Compact bool           `json:"compact"` // finally compact all objects with vectors enabled and query again
 }
 
 func genLakeCase(t *rapid.T) LakeCase {
@@ -93,6 +95,14 @@ func genLakeCase(t *rapid.T) LakeCase {
 	}
 	for i, ns := 0, ir(t, 1, 3, "nsome"); i < ns; i++ {
 		c.Some = append(c.Some, ir(t, 0, 7, "some"))
+	}
+	c.Compact = chance(t, 50, "compact")
+	if c.Compact && chance(t, 70, "compact-small-stride") {
+		// the sorted writer only sees its output grow when a seek-index stride completes
+		c.Pool.Stride = 1
+		if c.Pool.Thresh == 0 && !long {
+			c.Pool.Thresh = 60
+		}
 	}
 	if chance(t, 50, "delete-some") {
 		for i, nd := 0, ir(t, 1, 2, "ndel"); i < nd; i++ {
@@ -177,6 +187,11 @@ type colFeatures struct {
 	dictObjs   int
 	objects    int
 	sharedDict bool // some value occurs in the dictionaries of two objects
+	// predSum is what the vector Sum operator at HEAD computes for the column (model: per object and record type, a
+	// column of an integer type that is dictionary or plain encoded contributes the sum of its non-null values; const
+	// columns, floats and everything else contribute nothing; the result is an int64).  A vectorized sum that differs
+	// from the sequential one is only attributed to the listed findings when it equals this prediction.
+	predSum int64
 }
 
 func (e *lakeEnv) features(field string) (colFeatures, error) {
@@ -199,6 +214,8 @@ func (e *lakeEnv) features(field string) (colFeatures, error) {
 		// per record type: distinct values of the field (that is how VNG chooses the encoding)
 		perType := map[zed.Type]map[string]bool{}
 		counts := map[zed.Type]int{}
+		intSum := map[zed.Type]int64{}
+		fieldType := map[zed.Type]zed.Type{}
 		for _, v := range vals {
 			fv := v.Deref(field)
 			if fv == nil {
@@ -206,26 +223,44 @@ func (e *lakeEnv) features(field string) (colFeatures, error) {
 				continue
 			}
 			f.kinds[coarse(kindOf(*fv))] = true
+			fieldType[v.Type()] = fv.Type()
+			if fv.IsNull() {
+				// nulls are kept apart from the column's values by the VNG writer
+				continue
+			}
+			switch id := fv.Type().ID(); {
+			case zed.IsSigned(id):
+				intSum[v.Type()] += fv.Int()
+			case zed.IsUnsigned(id):
+				intSum[v.Type()] += int64(fv.Uint())
+			}
 			if perType[v.Type()] == nil {
 				perType[v.Type()] = map[string]bool{}
 			}
 			perType[v.Type()][oracle.Key(*fv)] = true
 			counts[v.Type()]++
+			_ = counts
 		}
 		objEnc := map[string]bool{}
 		for typ, d := range perType {
+			noDict := false
+			switch fieldType[typ].ID() {
+			case zed.IDUint8, zed.IDInt8, zed.IDBool:
+				noDict = true // vng.NewPrimitiveEncoder: 8-bit values are never dictionary (or const) encoded
+			}
 			switch {
-			case len(d) == 1:
+			case len(d) == 1 && !noDict:
 				objEnc["const"] = true
-			case len(d) > 256:
+			case len(d) > 256 || noDict:
 				objEnc["plain"] = true
+				f.predSum += intSum[typ]
 			default:
 				objEnc["dict"] = true
+				f.predSum += intSum[typ]
 				for k := range d {
 					seenInDict[k]++
 				}
 			}
-			_ = typ
 		}
 		for enc := range objEnc {
 			f.encs[enc]++
@@ -252,8 +287,11 @@ func (f colFeatures) String() string {
 	return strings.Join(ks, "|") + ";" + strings.Join(es, "|")
 }
 
-// lakeRootCause blames a difference of a vectorized run on the first applicable known cause.
-func lakeRootCause(p LakeProg, r lakeRun, f colFeatures, sym string) string {
+// lakeRootCause attributes a difference of a vectorized run to a listed finding - only where the observed result is
+// what that finding predicts: for sum() the vector result must equal the model of HEAD's Sum operator (predSum), for
+// count() by the vector rows must be bounded by the rows of the sequential plan (dictionary counts are overwritten,
+// groups are lost, never invented or over-counted).  Anything else keeps a detailed signature of its own.
+func lakeRootCause(p LakeProg, r lakeRun, f colFeatures, ref, bound []zed.Value) string {
 	msg := ""
 	if r.err != nil {
 		msg = r.err.Error()
@@ -262,20 +300,10 @@ func lakeRootCause(p LakeProg, r lakeRun, f colFeatures, sym string) string {
 	switch {
 	case strings.Contains(msg, "vam.objectPuller encountered unnamed object"):
 		return "vectorized-scan-behind-slicer"
-	case strings.Contains(msg, "interface conversion: vector.Any is *vector."):
-		i := strings.Index(msg, "vector.Any is *vector.")
-		typ := msg[i+len("vector.Any is *vector."):]
-		if j := strings.IndexAny(typ, " ,\n\t:"); j >= 0 {
-			typ = typ[:j]
-		}
-		return "countby/dictionary-key-not-string(" + typ + ")"
-	case strings.Contains(msg, "UNKNOWN *vector."):
-		i := strings.Index(msg, "UNKNOWN *vector.")
-		typ := msg[i+len("UNKNOWN *vector."):]
-		if j := strings.IndexAny(typ, " \n\t:"); j >= 0 {
-			typ = typ[:j]
-		}
-		return "countby/key-vector-not-supported(" + typ + ")"
+	case strings.Contains(msg, "interface conversion: vector.Any is *vector.") && strings.Contains(msg, "not *vector.String") && strings.Contains(msg, "CountByString"):
+		return "countby/dictionary-key-not-string"
+	case strings.Contains(msg, "UNKNOWN *vector.") && strings.Contains(msg, "CountByString"):
+		return "countby/key-vector-not-supported"
 	case r.err != nil:
 		return ""
 	}
@@ -289,6 +317,9 @@ func lakeRootCause(p LakeProg, r lakeRun, f colFeatures, sym string) string {
 	}
 	switch p.Shape {
 	case "countby":
+		if !countsBounded(p.Field, r.vals, bound, f.kinds["null"]) {
+			return ""
+		}
 		switch {
 		case hasFilter:
 			return "vectorized-scan-ignores-filter"
@@ -302,6 +333,14 @@ func lakeRootCause(p LakeProg, r lakeRun, f colFeatures, sym string) string {
 			return "countby/dict-counts-overwritten"
 		}
 	case "sum":
+		if len(r.vals) != 1 || len(ref) != 1 {
+			return ""
+		}
+		got := r.vals[0].Deref("sum")
+		want := ref[0].Deref("sum")
+		if got == nil || want == nil || got.Type() != zed.TypeInt64 || got.IsNull() || got.Int() != f.predSum {
+			return ""
+		}
 		switch {
 		case hasFilter:
 			return "vectorized-scan-ignores-filter"
@@ -309,15 +348,45 @@ func lakeRootCause(p LakeProg, r lakeRun, f colFeatures, sym string) string {
 			return "sum/float-ignored"
 		case f.kinds["uint"] || f.kinds["uint-narrow"]:
 			return "sum/unsigned-reported-as-int64"
-		case f.kinds["null"] || f.kinds["missing"] || nonNumeric(f.kinds):
-			return "sum/nothing-summable-or-null"
+		case want.IsNull():
+			return "sum/nothing-summable-reports-zero"
 		case f.encs["const"] > 0:
 			return "sum/const-vector-ignored"
-		case f.kinds["int-narrow"]:
-			return "sum/narrow-int"
 		}
 	}
 	return ""
+}
+
+// countsBounded: every row {field,count} of the vectorized result has a row with the same key and at least that
+// count in bound (the sequential result, without the filter if the program has one).  With null keys in the column
+// the vector operator counts null(string) under "", so the bound of "" includes the null group.
+func countsBounded(field string, got, bound []zed.Value, hasNull bool) bool {
+	limit := map[string]uint64{}
+	var nullCount uint64
+	for _, v := range bound {
+		k, c := v.Deref(field), v.Deref("count")
+		if k == nil || c == nil || c.Type() != zed.TypeUint64 {
+			return true // not the plain {key,count} shape (operators follow): nothing to verify
+		}
+		limit[oracle.Key(*k)] += c.Uint()
+		if k.IsNull() {
+			nullCount += c.Uint()
+		}
+	}
+	for _, v := range got {
+		k, c := v.Deref(field), v.Deref("count")
+		if k == nil || c == nil || c.Type() != zed.TypeUint64 {
+			return true
+		}
+		max := limit[oracle.Key(*k)]
+		if hasNull && k.Type() == zed.TypeString && !k.IsNull() && len(k.Bytes()) == 0 {
+			max += nullCount
+		}
+		if c.Uint() > max {
+			return false
+		}
+	}
+	return true
 }
 
 func nonNumeric(kinds map[string]bool) bool {
@@ -345,6 +414,8 @@ func lakeSymptom(ref, got lakeRun) string {
 	}
 	return "values-differ"
 }
+
+var leadingFilterRE = regexp.MustCompile(`^from p \| where [^|]* \| `)
 
 func runLakeCase(c LakeCase) *vt.Outcome {
 	o := &vt.Outcome{}
@@ -411,6 +482,19 @@ func runLakeCase(c LakeCase) *vt.Outcome {
 			return o
 		}
 	}
+	// for programs with a leading filter: the result without it (what a plan that ignores the filter may return at most)
+	noFilter := make([][]zed.Value, len(c.Progs))
+	for i, p := range c.Progs {
+		if t := leadingFilterRE.ReplaceAllString(p.Text, "from p | "); t != p.Text {
+			r := e.run(t)
+			if r.err != nil {
+				o.Skip = "reference-error: " + errClass(r.err)
+				return o
+			}
+			noFilter[i] = r.vals
+		}
+	}
+	nobjs := len(objs)
 	known := map[string]bool{}
 	check := func(state string, expectVec bool) bool {
 		for i, p := range c.Progs {
@@ -446,14 +530,18 @@ func runLakeCase(c LakeCase) *vt.Outcome {
 					return false
 				}
 				feat = f.String()
-				if rc := lakeRootCause(p, got, f, sym); rc != "" {
+				bound := refs[i].vals
+				if noFilter[i] != nil {
+					bound = noFilter[i]
+				}
+				if rc := lakeRootCause(p, got, f, refs[i].vals, bound); rc != "" {
 					sig = "C09/lake/" + rc
 				} else {
 					sig = "C09/lake/vectorized/" + p.Shape + "(" + feat + ")/" + sym
 				}
 			}
 			msg := fmt.Sprintf("%q at parallelism 2 in vector state %q (objects=%d, vectorized plan=%v, column %s: %s): %s; without vectors the query returns %d values, e.g. %s",
-				p.Text, state, len(objs), got.vectorize, p.Field, feat, d, len(refs[i].vals), showFirst(refs[i].vals))
+				p.Text, state, nobjs, got.vectorize, p.Field, feat, d, len(refs[i].vals), showFirst(refs[i].vals))
 			if vt.IsKnown(sig) || discover("TestVamLake", sig, msg, c) {
 				known[sig] = true
 				continue
@@ -506,6 +594,49 @@ func runLakeCase(c LakeCase) *vt.Outcome {
 	}
 	if !check("after-delete", false) {
 		return o
+	}
+	// state 4 (optional): compact every object with vectors enabled - the vector copies now come from the compaction
+	// writer (lake.SortedWriter), and with a small threshold and seek stride the rollup spills into several objects
+	if c.Compact {
+		var all []ksuid.KSUID
+		for _, ob := range objs {
+			all = append(all, ob.ID)
+		}
+		if len(all) >= 2 {
+			if _, err := lk.API.Compact(ctx, pool, "main", all, true, lakeh.Msg); err != nil {
+				o.Fail = fail("C09/lake/compact-failed", "Compact(%d objects, vectors): %v", len(all), err)
+				return o
+			}
+			tip, err := lk.Tip(ctx, pool, "main")
+			if err != nil {
+				o.Fail = fail("C09/setup", "%v", err)
+				return o
+			}
+			after, vecs, err := lk.Objects(ctx, pool, tip)
+			if err != nil {
+				o.Fail = fail("C09/setup", "%v", err)
+				return o
+			}
+			nobjs = len(after)
+			allVec := true
+			for _, ob := range after {
+				if !vecs[ob.ID] {
+					allVec = false
+				}
+			}
+			if !allVec {
+				o.Fail = fail("C09/lake/compact-without-vectors", "compaction with vectors enabled left %d objects, not all with a vector copy", len(after))
+				return o
+			}
+			if len(after) >= 2 {
+				o.Label("compacted:objects>=2")
+			} else {
+				o.Label("compacted:objects=1")
+			}
+			if !check("compacted-with-vectors", true) {
+				return o
+			}
+		}
 	}
 	o.Known = sortedKeys(known)
 	o.NonTrivial = len(o.Units) > 0
